@@ -172,7 +172,30 @@ def gen_zero_req(rnd):
             "subscribe_first": False, "profile": "zeroreq", "ample": False}
 
 
+def gen_reindex_close(rnd):
+    """Orders that close while the open-order list is traversed, with other orders queued behind them, on every bar around
+    the 50th (and 100th) traversal: nobody behind a closing order may be skipped."""
+    n = rnd.choice([60, 108])
+    px = 100
+    bars = [[0, 60 * (k + 1), dec(px, 2), dec(px + 1, 2), dec(px - 1, 2), dec(px, 2), "1000"] for k in range(n)]
+    script = {}
+    spans = [range(44, 57)] + ([range(94, 107)] if n > 100 else [])
+    for span in spans:
+        for k in span:
+            acts = [["create", "market", rnd.choice(["buy", "sell"]), 0, "1.00", None, None, False, False]]
+            for _ in range(rnd.randint(1, 2)):
+                side = rnd.choice(["buy", "sell"])
+                acts.append(["create", "limit", side, 0, "1.00", dec(px + (1 if side == "buy" else -1), 2), None, False, False])
+            script[str(k)] = acts
+    return {"syms": ["BTC", "USD"], "pairs": [["BTC", "USD"]], "sym_prec": {"BTC": 2, "USD": 2}, "pair_info": {},
+            "default_pair": None, "fee": None, "liq": None, "lend": None,
+            "initial": {"BTC": "1000.00", "USD": "1000000.00"}, "bars": bars, "script": script,
+            "subscribe_first": False, "profile": "reindexclose", "ample": True}
+
+
 def gen_case(rnd, profile="mixed", size="small"):
+    if profile == "reindexclose":
+        return gen_reindex_close(rnd)
     if profile == "zeroreq":
         return gen_zero_req(rnd)
     if profile == "nearequal":
